@@ -33,6 +33,12 @@ schema is audited with the declarative invariant:
 * sweep: after the last statement of a script every user type is `DROP TYPE`d in random
   order until nothing more can be dropped; each accepted drop is audited like any other
   statement (a stale but still resolvable reference becomes a dangling one here);
+* garbage collection of implicit types (tuples, arrays of tuples, ranges, union targets)
+  shared by several users: collected exactly when the last user goes — never earlier (a
+  sibling pointer would dangle), never later (an unreferenced non-std implicit type is
+  reported; `array<scalar>` is kept on purpose);
+* a ChainedSchema stream: the corpus and a role script on the three-layer schema the
+  server works with, audited through the chained public API;
 * full audit (base schema, end of every script): the same over ALL objects of the
   schema (std library included, ~6000 objects), both directions of all three name
   indexes and of the reverse-reference index;
@@ -92,7 +98,79 @@ BASES = [
     type C extending A { overloaded link l -> T3; overloaded property p -> S2; }
     type D extending PA, PA2 { overloaded link m -> T4; }
     ''',
+    # implicit collection types (tuple / named / nested tuple, array<tuple>, range, multirange,
+    # union link targets) shared by SIBLING pointers, link properties, other types, a global,
+    # a function parameter and an alias: they are garbage-collected by conditional drops
+    '''
+    type A; type B;
+    type Doc {
+        property tags -> tuple<str, str>; property labels -> tuple<str, str>; property marks -> tuple<str, str>;
+        property nt -> tuple<a: str, b: int64>; property nt2 -> tuple<a: str, b: int64>;
+        property nest -> tuple<str, tuple<int64, str>>; property nest2 -> tuple<str, tuple<int64, str>>;
+        property arr -> array<tuple<str, int64>>; property arr2 -> array<tuple<str, int64>>;
+        property rng -> range<int64>; property mr -> multirange<int64>; property mr2 -> multirange<int64>;
+        multi link rel -> A { property w -> tuple<int64, int64>; property w2 -> tuple<int64, int64>; };
+        link u -> A | B; link u2 -> A | B;
+        property shared -> tuple<bool, str>;
+    }
+    type Doc2 { property shared -> tuple<bool, str>; property solo -> tuple<float64, str>; }
+    global gt -> tuple<bool, bool>;
+    function ft(x: tuple<bool, bool>) -> bool using (x.0);
+    alias AT := (select Doc { tags, nt });
+    ''',
 ]
+
+COLL_POOL = ['tuple<str, str>', 'tuple<a: str, b: int64>', 'tuple<str, tuple<int64, str>>',
+             'array<tuple<str, int64>>', 'range<int64>', 'multirange<int64>', 'tuple<int64, int64>',
+             'tuple<bool, str>', 'tuple<bool, bool>', 'tuple<float64, str>', 'array<tuple<str, str>>']
+
+
+def collection_corpus(rng, thorough: bool):
+    """fixed scripts on base #3: users of one implicit type are dropped / re-typed / renamed one
+    at a time in every order (quick: every order for the 3 tuple<str,str> siblings, one random
+    order for each other group), ending with the checks of the sweep"""
+    import itertools
+    out = []
+    # the shortest witness of a premature collection: two siblings, drop one
+    out.append((3, ['alter type Doc drop property marks;', 'alter type Doc drop property tags;',
+                    'alter type Doc alter property labels set type tuple<str, int64> using (<tuple<str, int64>>{});']))
+    # OBSERVATION on the unchanged tree (key drop-global-leaks-implicit-type): DROP GLOBAL never
+    # collects the global's implicit collection type when the global was its last user — a
+    # leak (the type stays, unreferenced), not a dangling reference
+    out.append((3, ['drop function ft(x: tuple<bool, bool>);', 'drop global gt;'],
+                'drop-global-leaks-implicit-type', 'nosweep'))
+    # the same from scratch: two commands
+    out.append((1, ['create type Memo { create property tags -> tuple<str, str>; '
+                    'create property labels -> tuple<str, str>; };',
+                    'alter type Memo drop property tags;',
+                    'alter type Memo drop property labels;'], None, 'nosweep'))
+    groups = {
+        'tuple<str,str> siblings': ['alter type Doc drop property tags;', 'alter type Doc drop property labels;',
+                                    'alter type Doc drop property marks;'],
+        'named tuple': ['alter type Doc drop property nt;', 'alter type Doc drop property nt2;', 'drop alias AT;'],
+        'nested tuple': ['alter type Doc drop property nest;',
+                         "alter type Doc alter property nest2 set type str using ('x');"],
+        'array<tuple>': ['alter type Doc alter property arr rename to arr9;', 'alter type Doc drop property arr2;',
+                         'alter type Doc drop property arr9;'],
+        'multirange': ['alter type Doc drop property mr;', 'alter type Doc drop property mr2;',
+                       'alter type Doc drop property rng;'],
+        'link properties': ['alter type Doc alter link rel drop property w;',
+                            'alter type Doc alter link rel alter property w2 rename to w3;',
+                            'alter type Doc alter link rel drop property w3;'],
+        'union targets': ['alter type Doc drop link u;', 'alter type Doc alter link u2 set type A using (.u2[is A]);'],
+        'cross-type': ['alter type Doc drop property shared;', 'alter type Doc2 drop property shared;',
+                       'alter type Doc2 drop property solo;'],
+        'global + function': ['drop global gt;', 'drop function ft(x: tuple<bool, bool>);',
+                              'create global gt2 -> tuple<bool, bool>;', 'drop global gt2;'],
+    }
+    for name, stmts in groups.items():
+        perms = list(itertools.permutations(stmts))
+        if not thorough and name != 'tuple<str,str> siblings':
+            perms = rng.sample(perms, 1)
+        for pm in perms:
+            out.append((3, list(pm) + ['drop type Doc;', 'drop type Doc2;'], None, 'nosweep'))
+    return out
+
 
 
 # fixed scripts, run first on every run: renames of refdict members and of what they are
@@ -181,6 +259,23 @@ class Sym:
             self.aliases, self.globals_ = [], []
             self.aconstraints = ['posval']
             self.linkprops = {('User', 'friends'): ['since'], ('Post', 'author'): ['weight']}
+        elif base == 3:
+            mk = lambda props, links: {'abstract': False, 'bases': [], 'props': props, 'links': links}
+            self.types = {
+                'A': mk({}, {}), 'B': mk({}, {}),
+                'Doc': mk({'tags': 'tuple<str, str>', 'labels': 'tuple<str, str>', 'marks': 'tuple<str, str>',
+                           'nt': 'tuple<a: str, b: int64>', 'nt2': 'tuple<a: str, b: int64>',
+                           'nest': 'tuple<str, tuple<int64, str>>', 'nest2': 'tuple<str, tuple<int64, str>>',
+                           'arr': 'array<tuple<str, int64>>', 'arr2': 'array<tuple<str, int64>>',
+                           'rng': 'range<int64>', 'mr': 'multirange<int64>', 'mr2': 'multirange<int64>',
+                           'shared': 'tuple<bool, str>'}, {'rel': 'A', 'u': 'A | B', 'u2': 'A | B'}),
+                'Doc2': mk({'shared': 'tuple<bool, str>', 'solo': 'tuple<float64, str>'}, {}),
+            }
+            self.scalars, self.funcs, self.annos = [], [], []
+            self.aliases, self.globals_ = ['AT'], ['gt']
+            self.aconstraints = []
+            self.linkprops = {('Doc', 'rel'): ['w', 'w2']}
+            self.cfuncs = {'ft': 'tuple<bool, bool>'}
         elif base == 2:
             mk = lambda bases, props, links, abstract=False: {
                 'abstract': abstract, 'bases': bases, 'props': props, 'links': links}
@@ -297,10 +392,86 @@ def gen_merge_stmt(sym: Sym, rng):
     return gen_stmt(sym, rng, merge=False)
 
 
+def gen_coll_stmt(sym: Sym, rng):
+    """statements around SHARED implicit collection types: more users of a type from a small
+    pool (sibling properties, link properties, other types, globals, function parameters,
+    aliases), then dropping / re-typing / renaming them one at a time"""
+    T = sorted(sym.types)
+    if not T:
+        return gen_stmt(sym, rng, merge=False)
+    t = rng.choice([x for x in T if sym.types[x]['props'] or rng.random() < 0.3] or T)
+    tt = sym.types[t]
+    cprops = sorted(p for p, ty in tt['props'].items() if ty in COLL_POOL)
+    k = rng.random()
+    ty = rng.choice(COLL_POOL)
+    if k < 0.22:
+        p = sym.fresh('c')
+        return 'create collection property', f'alter type {t} {{ create property {p} -> {ty}; }};', \
+            lambda s: s.types[t]['props'].__setitem__(p, ty)
+    if k < 0.47 and cprops:
+        p = rng.choice(cprops)
+        return 'drop collection property', f'alter type {t} drop property {p};', \
+            lambda s: s.types[t]['props'].pop(p, None)
+    if k < 0.57 and cprops:
+        p = rng.choice(cprops)
+        if rng.random() < 0.5:
+            return ('retype collection property', f"alter type {t} alter property {p} set type str using ('x');",
+                    lambda s: s.types[t]['props'].__setitem__(p, 'str'))
+        return ('retype collection property',
+                f'alter type {t} alter property {p} set type {ty} using (<{ty}>{{}});',
+                lambda s: s.types[t]['props'].__setitem__(p, ty))
+    if k < 0.63 and cprops:
+        p = rng.choice(cprops)
+        n = sym.fresh('c')
+        return ('rename collection property', f'alter type {t} alter property {p} rename to {n};',
+                lambda s: s.types[t]['props'].__setitem__(n, s.types[t]['props'].pop(p)))
+    if k < 0.75 and sym.linkprops:
+        (lt, l) = rng.choice(sorted(sym.linkprops))
+        if lt in sym.types and l in sym.types[lt]['links']:
+            have = sym.linkprops[(lt, l)]
+            if have and rng.random() < 0.55:
+                w = rng.choice(have)
+                return ('drop collection link property', f'alter type {lt} alter link {l} drop property {w};',
+                        lambda s: s.linkprops[(lt, l)].remove(w))
+            w = sym.fresh('w')
+            return ('create collection link property',
+                    f'alter type {lt} alter link {l} create property {w} -> {ty};',
+                    lambda s: s.linkprops[(lt, l)].append(w))
+    if k < 0.82:
+        if sym.globals_ and rng.random() < 0.55:
+            g = rng.choice(sym.globals_)
+            return 'drop global', f'drop global {g};', lambda s: s.globals_.remove(g)
+        g = sym.fresh('g')
+        return 'create collection global', f'create global {g} -> {ty};', lambda s: s.globals_.append(g)
+    if k < 0.89:
+        cf = getattr(sym, 'cfuncs', None)
+        if cf is None:
+            cf = sym.cfuncs = {}
+        if cf and rng.random() < 0.55:
+            f = rng.choice(sorted(cf))
+            return 'drop collection function', f'drop function {f}(x: {cf[f]});', lambda s: s.cfuncs.pop(f, None)
+        f = sym.fresh('cf')
+        return ('create collection function', f'create function {f}(x: {ty}) -> int64 using (1);',
+                lambda s: s.cfuncs.__setitem__(f, ty))
+    if k < 0.93 and tt['links']:
+        l = rng.choice(sorted(tt['links']))
+        if rng.random() < 0.5:
+            return 'drop link', f'alter type {t} drop link {l};', lambda s: s.types[t]['links'].pop(l, None)
+        return ('retype union link', f'alter type {t} alter link {l} set type A using (.{l}[is A]);',
+                lambda s: s.types[t]['links'].__setitem__(l, 'A'))
+    if k < 0.96 and 'A' in sym.types and 'B' in sym.types:
+        l = sym.fresh('u')
+        return ('create union link', f'alter type {t} {{ create link {l} -> A | B; }};',
+                lambda s: s.types[t]['links'].__setitem__(l, 'A | B'))
+    return gen_stmt(sym, rng, merge=False)
+
+
 def gen_stmt(sym: Sym, rng, merge=True):
     """returns (kind, ddl text, effect) — effect(sym) is applied when the engine accepts"""
     if merge and sym.base == 2 and rng.random() < 0.65:
         return gen_merge_stmt(sym, rng)
+    if merge and sym.base == 3 and rng.random() < 0.8:
+        return gen_coll_stmt(sym, rng)
     T = sorted(sym.types)
     pick_t = lambda: rng.choice(T) if T else 'Nope'
     if sym.followups and rng.random() < 0.75:
@@ -737,6 +908,25 @@ class Auditor:
                                f'{self.describe(s, got) if got is not None else None}')
         except Exception as e:              # noqa: BLE001
             bad.append(f'endpoint: inspecting {self.describe(s, i)} raised {type(e).__name__}: {e}')
+
+    def gc_leaks(self, s, std):
+        """implicit types (collections, union / intersection object types) that are not part
+        of the std library and that nothing outside their own structural children refers to:
+        they should have been collected when their last user went"""
+        from edb.schema import types as s_types, objtypes
+        out = []
+        for o in s.get_objects(exclude_internal=False, type=s_types.Collection):
+            if std.has_object(o.id):
+                continue
+            if isinstance(o, s_types.Array) and o.get_element_type(s).is_scalar():
+                continue                    # array<scalar> is kept on purpose (DeleteArray._has_outside_references)
+            if not [r for r in s.get_referrers(o) if not r.is_parent_ref(s, o)]:
+                out.append(self.describe(s, o.id))
+        for o in s.get_objects(exclude_internal=False, type=objtypes.ObjectType, exclude_stdlib=True):
+            if o.get_union_of(s) or o.get_intersection_of(s):
+                if not [r for r in s.get_referrers(o) if not r.is_parent_ref(s, o)]:
+                    out.append(self.describe(s, o.id))
+        return out
 
     def check_owner_side(self, s, i, bad):
         """the refdict collections held by object i: keys are the keys the members'
@@ -1363,6 +1553,181 @@ def build_session(reg: ClassRegistry, base, log, errors):
     return header, lines, expected, skipped, keep
 
 
+
+# ------------------------------------------------------- ChainedSchema stream
+ROLE_SCRIPT = ['create role parent;', 'create role child extending parent;',
+               'create role grandchild extending child;', 'alter role child rename to kid;',
+               'drop role grandchild;', 'drop role kid;', 'drop role parent;']
+
+
+class ChainedAuditor:
+    """the declarative invariant through the PUBLIC API of the ChainedSchema the server
+    works with (std library as base, user schema on top, global schema aside)"""
+
+    def __init__(self, aud: Auditor):
+        self.aud = aud
+        self.so = aud.so
+
+    def edges(self, ch, o):
+        data = ch.get_obj_data_raw(o)
+        _cls, _ni, fl = self.aud.ref_fields(type(o).__name__)
+        out = set()
+        for fname, findex, ftype in fl:
+            v = data[findex] if findex < len(data) else None
+            if v is not None:
+                for t in ftype.schema_refs_from_data(v):
+                    out.add((t, type(o), fname))
+        return out
+
+    def audit(self, ch):
+        """returns [(kind, message)]"""
+        bad = []
+        base, top, gl = ch._base_schema, ch.get_top_schema(), ch.get_global_schema()
+        ids = list(top._id_to_data) + list(gl._id_to_data)
+        shadowed = {i for i in top._id_to_data if base.has_object(i)}
+        inv = {}
+        for i in ids:
+            o = ch.get_by_id(i, None)
+            if o is None:
+                bad.append(('types', f'{i} has data but get_by_id does not find it'))
+                continue
+            for (t, cls, fname) in self.edges(ch, o):
+                inv.setdefault(t, set()).add((i, cls, fname))
+                if ch.get_by_id(t, None) is None:
+                    bad.append(('dangling', f'{self.describe(ch, i)}.{fname} refers to {t} which is not in the schema'))
+            # name lookups
+            name = o.get_name(ch)
+            try:
+                got = (ch.get(name, None) if isinstance(o, self.so.QualifiedObject)
+                       else ch.get_global(type(o), name, None))
+                if got is None or got.id != i:
+                    bad.append(('names', f'lookup of {name} gives {got!r}, not {type(o).__name__} {i}'))
+            except Exception as e:          # noqa: BLE001
+                bad.append(('names', f'lookup of {name} raised {type(e).__name__}: {e}'))
+        for t in set(inv) | set(ids):
+            h = ch.get_by_id(t, None) or self.so.Object.raw_schema_restore('ObjectType', t)
+            want = set(inv.get(t, ()))
+            for (c, fn), rs in base.get_referrers_ex(h).items():
+                want |= {(r.id, c, fn) for r in rs if r.id not in shadowed}
+            try:
+                ex = ch.get_referrers_ex(h)
+                allr = ch.get_referrers(h)
+            except Exception as e:          # noqa: BLE001
+                bad.append(('refs', f'get_referrers({self.describe(ch, t)}) raised {type(e).__name__}: {e}'))
+                continue
+            got = {(r.id, c, fn) for (c, fn), rs in ex.items() for r in rs}
+            if got != want:
+                miss, extra = want - got, got - want
+                only_global = miss and not extra and all(
+                    issubclass(c, self.so.GlobalObject) for (_i, c, _f) in miss)
+                kind = 'refs-ex-global' if only_global else ('refs-shadow' if any(
+                    x[0] in shadowed for x in extra) else 'refs')
+                bad.append((kind, f'get_referrers_ex({self.describe(ch, t)}) lacks '
+                            f'{sorted((c.__name__, f) for _i, c, f in miss)[:3]} and has stale '
+                            f'{sorted((c.__name__, f) for _i, c, f in extra)[:3]} (object data is the reference)'))
+            if {r.id for r in allr} != {x[0] for x in want}:
+                kind = 'refs-shadow' if any(r.id in shadowed for r in allr) else 'refs'
+                bad.append((kind, f'get_referrers({self.describe(ch, t)}) disagrees with the object data'))
+        return bad
+
+    def describe(self, ch, i):
+        o = ch.get_by_id(i, None)
+        if o is None:
+            return f'<absent {i}>'
+        return f'{type(o).__name__} {o.get_name(ch)}'
+
+
+def run_chained(ctx, st, std_schema, aud, rng):
+    """the same DDL on the three-layer ChainedSchema; audit through its public API"""
+    from edb import edgeql, errors
+    from edb.schema import schema as s_schema, ddl as s_ddl, delta as sd
+    from bridge import env
+    so = aud.so
+    gl, base = s_schema.EMPTY_SCHEMA, std_schema
+    for o in std_schema.get_objects(exclude_internal=False):
+        if isinstance(o, so.GlobalObject):
+            gl = gl.add_raw(o.id, type(o), std_schema._id_to_data[o.id])
+            base = base.delete(o)
+    ch0 = s_schema.ChainedSchema(base, s_schema.EMPTY_SCHEMA, gl)
+    ca = ChainedAuditor(aud)
+    cst = st['chained'] = {'scripts': 0, 'statements': 0, 'accepted': 0, 'audits': 0, 'shadow_copies': {}}
+
+    # probe: which base-schema objects get shadow-copied into the top schema, and through which fields
+    orig_update = s_schema.ChainedSchema.update_obj
+
+    def probe(self, obj, updates):
+        if (not isinstance(obj, so.GlobalObject) and not self._top_schema.has_object(obj.id)
+                and self._base_schema.get_by_id(obj.id, default=None) is not None):
+            refnames = {f.name for f in type(obj).get_object_reference_fields()}
+            k = f"{type(obj).__name__}: {'reference fields ' + str(sorted(set(updates) & refnames)) if set(updates) & refnames else 'no reference field'}"
+            cst['shadow_copies'][k] = cst['shadow_copies'].get(k, 0) + 1
+        return orig_update(self, obj, updates)
+
+    chained_bases = {}
+
+    def chained_base(k):
+        if k not in chained_bases:
+            flat = env.load_schema(BASES[k])
+            flat = env.run_ddl(flat, 'create module other;')
+            ch = ch0
+            for stmt in edgeql.parse_block(s_ddl.ddl_text_from_schema(flat)):
+                _s1, delta = s_ddl.delta_and_schema_from_ddl(
+                    stmt, schema=ch, modaliases={None: 'default'}, testmode=True)
+                c2 = sd.CommandContext()
+                c2.testmode = True
+                ch = delta.apply(ch, c2)
+            chained_bases[k] = ch
+        return chained_bases[k]
+
+    scripts = [(1, ROLE_SCRIPT, 'chained-referrers-ex-drops-global-only-keys')]
+    scripts += [(c[0], c[1], c[2] if len(c) > 2 else None) for c in CORPUS]
+    cc = collection_corpus(rng, False)
+    scripts += [(c[0], c[1], None) for c in (cc[:3] if ctx.quick() else cc)]
+    s_schema.ChainedSchema.update_obj = probe
+    try:
+        for (k, script, finding) in scripts:
+            ch = chained_base(k)
+            done = []
+            cst['scripts'] += 1
+            for ddl in script:
+                done.append(ddl)
+                key = hashlib.sha1(('chained' + '\n'.join(done)).encode()).hexdigest()[:12]
+                detail = {'base': k, 'chained': True, 'chained_script': list(done)}
+                cst['statements'] += 1
+                try:
+                    passes = two_pass(ch, ddl)
+                except errors.EdgeDBError:
+                    continue
+                except Exception as e:      # noqa: BLE001
+                    st['crashes'].setdefault(f'{type(e).__name__} (chained)', ddl)
+                    continue
+                cst['accepted'] += 1
+                s1, s2 = passes[-1]
+                for part in ('get_top_schema', 'get_global_schema'):
+                    diff = structural_diff(aud, getattr(s1, part)(), getattr(s2, part)())
+                    if diff:
+                        ctx.fail(f'l2-chained-replay:{key}', f'level 2 (ChainedSchema): replaying the canonical delta of '
+                                 f'{ddl!r} does not give the first-pass schema: {"; ".join(diff[:3])}', detail)
+                ch = s2
+                cst['audits'] += 1
+                for kind, msg in ca.audit(ch):
+                    what = f'level 2 (ChainedSchema): after {ddl!r}: {kind}: {msg}'
+                    if kind == 'refs-ex-global':
+                        ctx.fail('chained-referrers-ex-drops-global-only-keys' if finding and 'global-only' in finding
+                                 else f'chained-referrers-ex-drops-global-only-keys:{key}', what, detail)
+                    elif kind == 'refs-shadow':
+                        ctx.fail(f'chained-shadow-copy-keeps-base-referrers:{key}', what, detail)
+                    elif ('endpoint' in msg or '__|target@' in msg) and any('drop owned' in d for d in done):
+                        ctx.fail(f'drop-owned-leaves-target-prop-stale:{key}', what, detail)
+                    else:
+                        ctx.fail(f'l2-chained-oracle:{key}:{msg[:50]}', what, detail)
+    finally:
+        s_schema.ChainedSchema.update_obj = orig_update
+    ctx.log(f"level 2 (ChainedSchema): {cst['scripts']} scripts, {cst['statements']} statements "
+            f"({cst['accepted']} accepted), {cst['audits']} audits through the chained API; base objects "
+            f"shadow-copied into the top schema: {cst['shadow_copies']}")
+
+
 def replay_sessions(ctx, sessions, st):
     """pipe the logged operations through the Lean model and compare"""
     if not sessions:
@@ -1412,7 +1777,7 @@ def run_level2(ctx: core.Ctx):
     from bridge import env
     t0 = time.time()
     env.setup()
-    env.std_schema()
+    std_schema = env.std_schema()
     ctx.log(f'level 2: std schema ready ({env.std_info()}) in {time.time() - t0:.1f}s')
     from edb.schema import schema as s_schema
     from edb import errors
@@ -1434,11 +1799,11 @@ def run_level2(ctx: core.Ctx):
     ctx.log(f'level 2: {len(bases)} base schemas ({len(bases[0][0]._id_to_data)} objects each) pass the full audit')
 
     rng = ctx.rng
-    n_scripts = ctx.budget(21, 150)
+    n_scripts = ctx.budget(16, 160)
     n_stmts = ctx.budget(16, 20)
     st = {'statements': 0, 'accepted': 0, 'rejected': 0, 'kinds': {}, 'rejected_kinds': {}, 'errors': {},
           'objects_touched': 0, 'objects_removed': 0, 'full_audits': len(bases), 'versions': 0, 'scripts': 0,
-          'crashes': {}, 'replays_compared': 0, 'raw_ops_logged': 0, 'raw_ops_replayed': 0, 'raw_ops_unknown_version': 0,
+          'crashes': {}, 'gc_checks': 0, 'gc_leaks': 0, 'gc_leak_samples': {}, 'replays_compared': 0, 'raw_ops_logged': 0, 'raw_ops_replayed': 0, 'raw_ops_unknown_version': 0,
           'raw_op_kinds': {}, 'guard_checked': 0, 'guard_violations': {}, 'delists': 0,
           'statements_untranslatable': 0, 'trace_disagreements': 0}
     scripts = []
@@ -1450,7 +1815,8 @@ def run_level2(ctx: core.Ctx):
             if isinstance(d, dict) and 'script' in d:
                 scripts.append((d['base'], d['script']))
     if not ctx.replay:
-        scripts = list(CORPUS) + [(k % len(bases), None) for k in range(n_scripts)]
+        scripts = (list(CORPUS) + collection_corpus(rng, not ctx.quick())
+                   + [(k % len(bases), None) for k in range(n_scripts)])
     def user_types(sv):
         from edb.schema import objtypes
         out = []
@@ -1468,6 +1834,9 @@ def run_level2(ctx: core.Ctx):
         finding-prefixed key when the same defect shows in a generated script"""
         if finding is not None:
             return ctx.fail(finding, what, detail)
+        if prefix == 'l2-gc-leak' and any(d.lower().startswith('drop global') for d in done):
+            # DROP GLOBAL does not collect the global's implicit type (a leak, nothing dangles)
+            return ctx.fail(f'drop-global-leaks-implicit-type:{key}', what, detail)
         if 'endpoint:' in what or '__|target@' in what or '__|source@' in what:
             # the same defect as the corpus witness: the verdict is about the endpoint
             # properties of a link that an earlier statement of the script DROP OWNED-ed
@@ -1481,7 +1850,7 @@ def run_level2(ctx: core.Ctx):
     for sc in range(len(scripts)):
         base, fixed = scripts[sc][0], scripts[sc][1]
         finding = scripts[sc][2] if len(scripts[sc]) > 2 else None
-        do_sweep = not ctx.replay
+        do_sweep = not ctx.replay and not (len(scripts[sc]) > 3 and scripts[sc][3] == 'nosweep')
         sch, inv0, _deep0, fp0 = bases[base]
         inv = {t: set(v) for t, v in inv0.items()}
         sym = Sym(base)
@@ -1595,6 +1964,14 @@ def run_level2(ctx: core.Ctx):
                 fail('l2-oracle', key, b[:50], f'level 2: after {ddl!r}: {b}', detail, finding, done)
             sch = s2
             versions.append((sch, shallow_fp(sch, chg), chg))
+            # GC expectation, "not later" half (the "not earlier" half is NoDangling above)
+            st['gc_checks'] += 1
+            for leak in aud.gc_leaks(sch, std_schema):
+                st['gc_leaks'] += 1
+                st['gc_leak_samples'].setdefault(leak.split('<')[0], f'{leak} after {ddl!r}')
+                # OBSERVATION only (counted in the evidence): an unreferenced implicit type that stays in the
+                # schema is a leak, not a breach of C04 (nothing dangles, every index agrees) -- the property
+                # does not demand collection, so this is not reported as a failure (DESIGN.md 7.3).
         bad, inv_full = aud.full(sch)
         st['full_audits'] += 1
         for b in bad:
@@ -1612,6 +1989,8 @@ def run_level2(ctx: core.Ctx):
             replay_sessions(ctx, sessions, st)
             sessions = []
     replay_sessions(ctx, sessions, st)
+    if not ctx.replay:
+        run_chained(ctx, st, std_schema, aud, rng)
     for k, (sch, _inv, deep, _fp) in enumerate(bases):
         if fingerprint(sch) != deep:
             ctx.fail(f'l2-frozen-base:{k}', f'level 2: base schema #{k} changed (content of the six indexes) while '
